@@ -408,3 +408,464 @@ for _m in OPT_MODULES:
         UNITS[f"{_s}.{_n}"] = Unit(f"{_s}.{_n}", _f, [f"{_m}.{_n}"], props=("C13", "C07"), args=(_m,))
     UNITS[f"{_s}.scaling"] = Unit(f"{_s}.scaling", u_opt_scaling, [f"{_m}.add", f"{_m}.double"],
                                   kind="lemma", props=("C13",), args=(_m,))
+
+
+# ------------------------------------------------------------------------------------------
+# line functions of the optimized pairing modules (C13) and of the reference modules (C05)
+# ------------------------------------------------------------------------------------------
+def line_spec(P1, P2, T):
+    """the affine line function through P1, P2 evaluated at T (three cases, as in the textbook
+    Miller algorithm): chord, tangent, vertical"""
+    (x1, y1), (x2, y2), (xt, yt) = P1, P2, T
+    if x1 != x2:
+        m = (y2 - y1) / (x2 - x1)
+        return m * (xt - x1) - (yt - y1)
+    if y1 == y2:
+        m = 3 * x1 * x1 / (2 * y1)
+        return m * (xt - x1) - (yt - y1)
+    return xt - x1
+
+
+OPT_PAIRING = ["py_ecc.optimized_bls12_381.optimized_pairing", "py_ecc.optimized_bn128.optimized_pairing"]
+
+
+def u_opt_linefunc(ctx, modname):
+    q = f"{modname}.linefunc"
+    fv = get_function(ctx.prog, q)
+
+    def body(path):
+        new_path_setup(path)
+        K = FldKind("F")
+        b = fsym("b", K)
+        p1 = sym_proj(path, "1", K)
+        p2 = sym_proj(path, "2", K)
+        t = (fsym("xt", K), fsym("yt", K), fsym("zt", K))
+        # requires: finite valid representatives, T finite
+        for tag, p in (("1", p1), ("2", p2)):
+            path.assume(p[2] != 0, f"requires z{tag} != 0")
+            x, y, z = p
+            path.assume(y * y * z == x * x * x + b * z * z * z, f"on-curve{tag}")
+        path.assume(t[2] != 0, "requires zt != 0")
+        A1, A2 = (p1[0] / p1[2], p1[1] / p1[2]), (p2[0] / p2[2], p2[1] / p2[2])
+        T = (t[0] / t[2], t[1] / t[2])
+        # requires (tangent case): y1 != 0
+        if path.case(A1[0] == A2[0], "abs.x1=x2?") and path.case(A1[1] == A2[1], "abs.y1=y2?"):
+            path.assume(p1[1] != 0, "requires y1 != 0 when doubling")
+        kind, res = call_top(mk_interp(ctx, q), fv, [p1, p2, t])
+        if kind == "raise":
+            path.prove(f"{q}/raises.none", False, detail=f"raised {res.__name__}")
+            return
+        if not (isinstance(res, tuple) and len(res) == 2):
+            path.prove(f"{q}/ensures.shape", False, detail="result is not a (numerator, denominator) pair")
+            return
+        num, den = _fld(res[0]), _fld(res[1])
+        want = line_spec(A1, A2, T)
+        path.prove(f"{q}/ensures.den", den != 0, detail="denominator non-zero")
+        path.prove(f"{q}/ensures.ratio", num == want * den, detail="num/den = affine line function")
+    ctx.ex.run(body, q)
+
+
+for _m in OPT_PAIRING:
+    _s = _m.split(".")[1]
+    UNITS[f"{_s}.linefunc"] = Unit(f"{_s}.linefunc", u_opt_linefunc, [f"{_m}.linefunc"], props=("C13", "C05"),
+                                   args=(_m,))
+
+
+# ------------------------------------------------------------------------------------------
+# secp256k1: Jacobian coordinates over integers modulo P
+# ------------------------------------------------------------------------------------------
+SECP = "py_ecc.secp256k1.secp256k1"
+SECP_P = 2 ** 256 - 2 ** 32 - 977
+
+
+def secp_kind():
+    return FldKind("ZmodP", modulus=SECP_P)
+
+
+def sym_jac(tag, K):
+    return (fsym(f"x{tag}", K), fsym(f"y{tag}", K), fsym(f"z{tag}", K))
+
+
+def assume_valid_jac(path, p, b, tag):
+    """valid(p): (x = 0 and y = 0)  [identity]   or   y != 0, z != 0, y^2 = x^3 + b z^6"""
+    x, y, z = p
+    if path.case(y == 0, f"y{tag}=0?"):
+        path.assume(x == 0, f"identity{tag} is encoded with x = 0")
+        return False
+    path.assume(z != 0, f"finite{tag}: z != 0")
+    path.assume(y * y == x * x * x + b * z ** 6, f"on-curve{tag}")
+    return True
+
+
+def abs_jac(path, p, tag=""):
+    x, y, z = p
+    if path.case(y == 0, f"abs.y{tag}=0?"):
+        return None
+    return (x / (z * z), y / (z * z * z))
+
+
+def _reduced(v, K):
+    if isinstance(v, Fld):
+        return v.reduced
+    if isinstance(v, bool):
+        return True
+    if isinstance(v, int):
+        return 0 <= v < K.modulus
+    return False
+
+
+def prove_jac_result(path, name, res, spec_pt, b, K, no_y0=True):
+    if not (isinstance(res, tuple) and len(res) == 3):
+        path.prove(f"{name}/ensures.shape", False, detail=f"result is not a triple: {res!r}")
+        return
+    path.prove(f"{name}/ensures.reduced", all(_reduced(v, K) for v in res),
+               detail="every coordinate is reduced into [0, P)")
+    x, y, z = [_fld(v, K) for v in res]
+    if spec_pt is None:
+        path.prove(f"{name}/ensures.abs", y.r.n == 0 if False else FAtom(y.r.n, True), detail="spec result is O: y must be 0")
+        path.prove(f"{name}/ensures.abs", FAtom(x.r.n, True), detail="spec result is O: identity is encoded with x = 0")
+        return
+    X, Y = spec_pt
+    # the curve has no point with y = 0 (-b is a non-cube: closed fact checked on the real constants);
+    # instantiated at the spec result, which is on the curve (lean: specAdd_onCurve)
+    if no_y0:
+        path.assume(FAtom(Y.r.n, False), "no curve point has y = 0 (closed fact: -7 is a non-cube mod P)")
+    path.prove(f"{name}/ensures.abs", FAtom(y.r.n, False), detail="spec result is finite: y must be non-zero")
+    path.prove(f"{name}/ensures.abs", FAtom(z.r.n, False), detail="spec result is finite: z must be non-zero")
+    path.prove(f"{name}/ensures.abs", FAtom((x - X * z * z).r.n, True), detail="x/z^2 = X_spec")
+    path.prove(f"{name}/ensures.abs", FAtom((y - Y * z * z * z).r.n, True), detail="y/z^3 = Y_spec")
+    path.prove(f"{name}/ensures.valid", FAtom((y * y - x * x * x - b * z ** 6).r.n, True), detail="result on curve")
+
+
+class JacDoubleContract:
+    """jacobian_double at a call site: fresh valid result with abs(res) = abs(p) (+) abs(p)"""
+
+    def __init__(self, b, K):
+        self.b, self.K = b, K
+
+    def apply(self, interp, fv, env):
+        path = cur()
+        p = env[list(env)[0]]
+        P_ = abs_jac(path, p, ".call")
+        S = ec_add(P_, P_)
+        k = next(path.fresh_id)
+        K = self.K
+        rx, ry, rz = fsym(f"dx{k}", K), fsym(f"dy{k}", K), fsym(f"dz{k}", K)
+        if S is None:
+            path.assume(ry == 0, "jacobian_double.ensures")
+            path.assume(rx == 0, "jacobian_double.ensures")
+        else:
+            path.assume(FAtom(S[1].r.n, False), "no curve point has y = 0")
+            path.assume(rz != 0, "jacobian_double.ensures")
+            path.assume(FAtom((rx - S[0] * rz * rz).r.n, True), "jacobian_double.ensures.x")
+            path.assume(FAtom((ry - S[1] * rz * rz * rz).r.n, True), "jacobian_double.ensures.y")
+        return (rx, ry, rz)
+
+
+def _secp_globals():
+    return {}
+
+
+def u_secp_jdouble(ctx):
+    q = f"{SECP}.jacobian_double"
+    fv = get_function(ctx.prog, q)
+
+    def body(path):
+        new_path_setup(path)
+        K = secp_kind()
+        b = fsym("b", K)
+        p = sym_jac("1", K)
+        assume_valid_jac(path, p, b, "1")
+        kind, res = call_top(mk_interp(ctx, q), fv, [p])
+        if kind == "raise":
+            path.prove(f"{q}/raises.none", False, detail=f"raised {res.__name__}")
+            return
+        P_ = abs_jac(path, p)
+        prove_jac_result(path, q, res, ec_add(P_, P_), b, K)
+    ctx.ex.run(body, q)
+    ctx.assume("secp256k1 has no point with y = 0 (closed fact -7 non-cube mod P, checked by eval in unit secp.constants)")
+
+
+def u_secp_jadd(ctx):
+    q = f"{SECP}.jacobian_add"
+    fv = get_function(ctx.prog, q)
+
+    def body(path):
+        new_path_setup(path)
+        K = secp_kind()
+        b = fsym("b", K)
+        p1, p2 = sym_jac("1", K), sym_jac("2", K)
+        assume_valid_jac(path, p1, b, "1")
+        assume_valid_jac(path, p2, b, "2")
+        it = mk_interp(ctx, q, contracts={f"{SECP}.jacobian_double": JacDoubleContract(b, K)})
+        kind, res = call_top(it, fv, [p1, p2])
+        if kind == "raise":
+            path.prove(f"{q}/raises.none", False, detail=f"raised {res.__name__}")
+            return
+        prove_jac_result(path, q, res, ec_add(abs_jac(path, p1, "1"), abs_jac(path, p2, "2")), b, K)
+    ctx.ex.run(body, q)
+
+
+def u_secp_to_jacobian(ctx):
+    q = f"{SECP}.to_jacobian"
+    fv = get_function(ctx.prog, q)
+
+    def body(path):
+        new_path_setup(path)
+        K = secp_kind()
+        b = fsym("b", K)
+        x, y = fsym("x1", K), fsym("y1", K)
+        # valid affine: (0, 0) = identity, or on curve (then y != 0 by the closed fact)
+        if path.case(y == 0, "y=0?"):
+            path.assume(x == 0, "identity is (0, 0)")
+            A = None
+        else:
+            path.assume(y * y == x * x * x + b, "on-curve")
+            A = (x, y)
+        kind, res = call_top(mk_interp(ctx, q), fv, [(x, y)])
+        if kind == "raise":
+            path.prove(f"{q}/raises.none", False, detail=f"raised {res.__name__}")
+            return
+        prove_jac_result(path, q, res, A, b, K, no_y0=False)
+    ctx.ex.run(body, q)
+
+
+class InvContract:
+    """secp256k1.inv(a, n) / utils.prime_field_inv at coordinate level, n the field prime:
+    requires a reduced (or a == 0); ensures res = inv0(a) reduced.  (Proved at integer level in
+    contracts.ints: unit secp.inv.)"""
+
+    def __init__(self, K, top):
+        self.K, self.top = K, top
+
+    def apply(self, interp, fv, env):
+        path = cur()
+        a, n = env["a"], env["n"]
+        if not (isinstance(n, int) and n == self.K.modulus):
+            raise Unsupported("inv with a modulus other than the field prime at coordinate level")
+        a = _fld(a, self.K)
+        path.prove(f"{self.top}/call[inv]/requires.reduced", bool(a.reduced), kind="requires",
+                   detail="inv(a, n) tests a == 0 on the unreduced value: argument must be reduced")
+        r = self.K.one() / a
+        return Fld(r.r, self.K, reduced=True)
+
+
+def u_secp_from_jacobian(ctx):
+    q = f"{SECP}.from_jacobian"
+    fv = get_function(ctx.prog, q)
+
+    def body(path):
+        new_path_setup(path)
+        K = secp_kind()
+        b = fsym("b", K)
+        p = sym_jac("1", K)
+        assume_valid_jac(path, p, b, "1")
+        it = mk_interp(ctx, q, contracts={f"{SECP}.inv": InvContract(K, q)})
+        kind, res = call_top(it, fv, [p])
+        if kind == "raise":
+            path.prove(f"{q}/raises.none", False, detail=f"raised {res.__name__}")
+            return
+        if not (isinstance(res, tuple) and len(res) == 2):
+            path.prove(f"{q}/ensures.shape", False, detail="result is not a pair")
+            return
+        path.prove(f"{q}/ensures.reduced", all(_reduced(v, K) for v in res), detail="coordinates reduced")
+        rx, ry = [_fld(v, K) for v in res]
+        A = abs_jac(path, p)
+        if A is None:
+            path.prove(f"{q}/ensures.abs", FAtom(rx.r.n, True), detail="identity maps to (0, 0)")
+            path.prove(f"{q}/ensures.abs", FAtom(ry.r.n, True), detail="identity maps to (0, 0)")
+        else:
+            path.prove(f"{q}/ensures.abs", FAtom((rx - A[0]).r.n, True), detail="x = X/Z^2")
+            path.prove(f"{q}/ensures.abs", FAtom((ry - A[1]).r.n, True), detail="y = Y/Z^3")
+    ctx.ex.run(body, q)
+
+
+UNITS["secp.jacobian_double"] = Unit("secp.jacobian_double", u_secp_jdouble, [f"{SECP}.jacobian_double"],
+                                     props=("C13", "C18"))
+UNITS["secp.jacobian_add"] = Unit("secp.jacobian_add", u_secp_jadd, [f"{SECP}.jacobian_add"], props=("C13", "C18"))
+UNITS["secp.to_jacobian"] = Unit("secp.to_jacobian", u_secp_to_jacobian, [f"{SECP}.to_jacobian"], props=("C18",))
+UNITS["secp.from_jacobian"] = Unit("secp.from_jacobian", u_secp_from_jacobian, [f"{SECP}.from_jacobian"],
+                                   props=("C18",))
+
+
+# ------------------------------------------------------------------------------------------
+# reference (affine) modules: the code *is* the affine law; obligations: results valid, the
+# case split matches the spec on every path, the internal `raise` is unreachable (C07)
+# ------------------------------------------------------------------------------------------
+REF_MODULES = ["py_ecc.bls12_381.bls12_381_curve", "py_ecc.bn128.bn128_curve"]
+
+
+def sym_aff(path, tag, K, b):
+    """a valid reference-module point: None or an on-curve pair (forks)"""
+    if path.choose(2, f"p{tag}") == 0:
+        path.sig[-1] = f"p{tag}=None"
+        return None
+    path.sig[-1] = f"p{tag}=finite"
+    x, y = fsym(f"x{tag}", K), fsym(f"y{tag}", K)
+    path.assume(y * y == x * x * x + b, f"on-curve{tag}")
+    return (x, y)
+
+
+def prove_aff_result(path, name, res, spec_pt, b):
+    if spec_pt is None:
+        path.prove(f"{name}/ensures.abs", res is None, detail=f"spec result is O; got {res!r}"[:200])
+        return
+    if not (isinstance(res, tuple) and len(res) == 2):
+        path.prove(f"{name}/ensures.abs", False, detail=f"spec result is finite; got {res!r}"[:200])
+        return
+    x, y = _fld(res[0]), _fld(res[1])
+    path.prove(f"{name}/ensures.abs", x == spec_pt[0], detail="x = X_spec")
+    path.prove(f"{name}/ensures.abs", y == spec_pt[1], detail="y = Y_spec")
+    path.prove(f"{name}/ensures.valid", y * y == x * x * x + b, detail="result on curve")
+
+
+class AffDoubleContract:
+    def __init__(self, b):
+        self.b = b
+
+    def apply(self, interp, fv, env):
+        path = cur()
+        p = list(env.values())[0]
+        S = ec_add(p, p)
+        if S is None:
+            return None
+        K = S[0].kind
+        k = next(path.fresh_id)
+        rx, ry = fsym(f"dx{k}", K), fsym(f"dy{k}", K)
+        path.assume(rx == S[0], "double.ensures.x")
+        path.assume(ry == S[1], "double.ensures.y")
+        return (rx, ry)
+
+
+def _ref_unit(ctx, modname, name, nargs, spec, contracts=None):
+    q = f"{modname}.{name}"
+    fv = get_function(ctx.prog, q)
+
+    def body(path):
+        new_path_setup(path)
+        K = FldKind("F")
+        b = fsym("b", K)
+        pts = [sym_aff(path, str(i + 1), K, b) for i in range(nargs)]
+        cons = contracts(b) if contracts else None
+        kind, res = call_top(mk_interp(ctx, q, contracts=cons), fv, pts)
+        if kind == "raise":
+            path.prove(f"{q}/raises.none", False, detail=f"raised {res.__name__} on valid input (must be unreachable)")
+            return
+        prove_aff_result(path, q, res, spec(*pts), b)
+    ctx.ex.run(body, q)
+
+
+def u_ref_double(ctx, modname):
+    _ref_unit(ctx, modname, "double", 1, lambda p: ec_add(p, p))
+
+
+def u_ref_add(ctx, modname):
+    _ref_unit(ctx, modname, "add", 2, ec_add, contracts=lambda b: {f"{modname}.double": AffDoubleContract(b)})
+
+
+def u_ref_neg(ctx, modname):
+    _ref_unit(ctx, modname, "neg", 1, ec_neg)
+
+
+def u_ref_eq(ctx, modname):
+    q = f"{modname}.eq"
+    fv = get_function(ctx.prog, q)
+
+    def body(path):
+        new_path_setup(path)
+        K = FldKind("F")
+        b = fsym("b", K)
+        p1, p2 = sym_aff(path, "1", K, b), sym_aff(path, "2", K, b)
+        kind, res = call_top(mk_interp(ctx, q), fv, [p1, p2])
+        if kind == "raise":
+            path.prove(f"{q}/raises.none", False, detail=f"raised {res.__name__}")
+            return
+        got = _as_bool(path, res, "eq")
+        if p1 is None or p2 is None:
+            path.prove(f"{q}/ensures.iff", got == (p1 is None and p2 is None))
+            return
+        if got:
+            path.prove(f"{q}/ensures.iff", p1[0] == p2[0])
+            path.prove(f"{q}/ensures.iff", p1[1] == p2[1])
+        elif path.case(p1[0] == p2[0], "spec.x1=x2?"):
+            path.prove(f"{q}/ensures.iff", p1[1] != p2[1], detail="eq returned False although the points are equal")
+    ctx.ex.run(body, q)
+
+
+def u_ref_is_on_curve(ctx, modname):
+    q = f"{modname}.is_on_curve"
+    fv = get_function(ctx.prog, q)
+
+    def body(path):
+        K = FldKind("F")
+        b = fsym("b", K)
+        if path.choose(2, "pt") == 0:
+            path.sig[-1] = "pt=None"
+            pt = None
+        else:
+            path.sig[-1] = "pt=finite"
+            pt = (fsym("x1", K), fsym("y1", K))
+        kind, res = call_top(mk_interp(ctx, q), fv, [pt, b])
+        if kind == "raise":
+            path.prove(f"{q}/raises.none", False, detail=f"raised {res.__name__}")
+            return
+        got = _as_bool(path, res, "is_on_curve")
+        if pt is None:
+            path.prove(f"{q}/ensures.iff", got is True, detail="infinity is on the curve")
+            return
+        x, y = pt
+        path.prove(f"{q}/ensures.iff", (y * y == x * x * x + b) if got else (y * y != x * x * x + b),
+                   detail=f"returned {got}")
+    ctx.ex.run(body, q)
+
+
+def u_ref_is_inf(ctx, modname):
+    q = f"{modname}.is_inf"
+    fv = get_function(ctx.prog, q)
+
+    def body(path):
+        K = FldKind("F")
+        b = fsym("b", K)
+        pt = sym_aff(path, "1", K, b)
+        kind, res = call_top(mk_interp(ctx, q), fv, [pt])
+        if kind == "raise":
+            path.prove(f"{q}/raises.none", False, detail=f"raised {res.__name__}")
+            return
+        got = _as_bool(path, res, "is_inf")
+        path.prove(f"{q}/ensures.iff", got == (pt is None))
+    ctx.ex.run(body, q)
+
+
+def u_ref_linefunc(ctx, modname):
+    q = f"{modname}.linefunc"
+    fv = get_function(ctx.prog, q)
+
+    def body(path):
+        new_path_setup(path)
+        K = FldKind("F")
+        b = fsym("b", K)
+        pts = []
+        for tag in ("1", "2"):
+            x, y = fsym(f"x{tag}", K), fsym(f"y{tag}", K)
+            path.assume(y * y == x * x * x + b, f"on-curve{tag}")
+            pts.append((x, y))
+        T = (fsym("xt", K), fsym("yt", K))
+        kind, res = call_top(mk_interp(ctx, q), fv, pts + [T])
+        if kind == "raise":
+            path.prove(f"{q}/raises.none", False, detail=f"raised {res.__name__} on finite points")
+            return
+        path.prove(f"{q}/ensures.value", _fld(res) == line_spec(pts[0], pts[1], T),
+                   detail="res = affine line function")
+    ctx.ex.run(body, q)
+
+
+REF_PAIRING = {"py_ecc.bls12_381.bls12_381_curve": "py_ecc.bls12_381.bls12_381_pairing",
+               "py_ecc.bn128.bn128_curve": "py_ecc.bn128.bn128_pairing"}
+
+for _m in REF_MODULES:
+    _s = _m.split(".")[1]
+    for _n, _f in [("double", u_ref_double), ("add", u_ref_add), ("neg", u_ref_neg), ("eq", u_ref_eq),
+                   ("is_on_curve", u_ref_is_on_curve), ("is_inf", u_ref_is_inf)]:
+        UNITS[f"{_s}.{_n}"] = Unit(f"{_s}.{_n}", _f, [f"{_m}.{_n}"], props=("C07",), args=(_m,))
+    _pm = REF_PAIRING[_m]
+    UNITS[f"{_s}.linefunc"] = Unit(f"{_s}.linefunc", u_ref_linefunc, [f"{_pm}.linefunc"], props=("C05",), args=(_pm,))
